@@ -1,10 +1,11 @@
 import CedarVerif.Lemmas.PolicySetApiRefine
 import CedarVerif.Lemmas.PolicySetMergeThm
+import CedarVerif.Lemmas.PolicySetApiMerge
 /-
 C08 — Template linking equals substitution; policy-set edits keep ids consistent.
 
 Property theorems only (helpers: Lemmas/PolicySet{Subst,Map,Inv,Hist,Api,Spec,Refine,Proj,ApiRefine,Fold,Merge,MergeInv,
-MergeWF,Fresh,MergeThm}).
+MergeWF,Fresh,MergeThm,ApiMerge}).
 The statements are about the mirrors in Cedar/PolicySet.lean of `Template::{condition,check_binding,link}`,
 of `ast::PolicySet` and of the public `cedar_policy::PolicySet`.
 
@@ -26,9 +27,12 @@ Proved (all unconditional unless a hypothesis is named):
   `merge_inv`, with `merge_no_panic_fail_unchanged` (unconditional), `merge_renaming_ok` (the renaming renames exactly
   the conflicting ids to fresh, pairwise distinct ids; `get_fresh_id` terminates within the model's fuel) and
   `merge_inv_api_histories`.
-Not proved: the API layer's `merge` (`ApiPolicySet.merge`: that its own `policies`/`templates` maps stay projections and
-its `get(pid).unwrap()`s are unreachable), and the refinement of a specification-level merge (the abstract `Spec` has
-no merge operation). Both are covered by the correspondence run and the abstract-specification oracle of the harness.
+* the API layer's `merge` and all reachable states: `api_merge_inv` (invariant and projections preserved, its
+  `get(pid).unwrap()`s unreachable, failure changes nothing), `api_reachable_inv` (`Invariant` and `ApiProjection` in
+  every state reachable by the six operations and merges).
+Not proved: the refinement of a specification-level merge (the abstract `Spec` has no merge operation: what the merged
+set contains is characterised only concretely, `PolicySet.U_templates` / `U_links` / `U_t2l`); covered by the
+correspondence run and the abstract-specification oracle of the harness.
 -/
 namespace Cedar.C08
 open Cedar
@@ -433,6 +437,42 @@ example :
     (ps.ast.merge other.ast true).ps.templates.keys = ["a", "t", "policy0", "policy1", "policy2", "z"] ∧
     (ps.ast.merge other.ast true).ps.t2l.get? "policy2" = some ["policy3"] ∧
     (ps.ast.merge other.ast false).err = some .occupied := by
+  decide +kernel
+
+/-! ### the public API layer's merge; all reachable states -/
+
+/-- C08 (API layer): `PolicySet::merge` of two sets satisfying the invariant of the API layer (core set well-formed
+within the API envelope, `policies` / `templates` = projections of the core maps) yields such a set; none of its
+`get(pid).unwrap()`s (nor the core `unwrap`) is reachable; it fails exactly when the core merge fails, and then changes
+nothing. -/
+theorem api_merge_inv (s other : ApiPolicySet) (rename : Bool) (hs : s.Inv) (ho : other.Inv) :
+    (s.merge other rename).ps.Inv ∧ (∀ m, (s.merge other rename).err ≠ some (.panic m)) ∧
+    ((s.merge other rename).err ≠ none → (s.merge other rename).ps = s) ∧
+    ((s.merge other rename).err = none ↔ (s.ast.merge other.ast rename).err = none) :=
+  ApiPolicySet.merge_inv s other rename hs ho
+
+/-- C08 (API layer), every reachable state — any sequence of add, add_template, link, unlink, remove_static,
+remove_template and merges of sets built the same way: the core set satisfies the invariant (no id shared, no link
+without its template, `template_to_links_map` exact), and the API's maps are exactly the projections of the core maps
+(`ApiProjection`, now including `merge`). -/
+theorem api_reachable_inv (s : ApiPolicySet) (h : ApiReachable s) :
+    Invariant s.ast ∧ s.WF ∧
+    (∀ k p, s.policies.get? k = some p ↔ s.ast.links.get? k = some p) ∧
+    (∀ k t, s.templates.get? k = some t ↔ (s.ast.templates.get? k = some t ∧ s.ast.links.get? k = none)) := by
+  have hi := h.inv
+  refine ⟨hi.wf.ast, hi.wf, fun k p => ?_, hi.proj.tmpl⟩
+  rw [hi.proj.pol]
+
+example :
+    let b : TemplateBody := { id := "a", annotations := [], effect := .permit, principalC := .any, actionC := .any, resourceC := .any, nonScope := none }
+    let t : Template := { body := { b with id := "t", principalC := .eq .slot }, slots := [.principal] }
+    let ps := ApiPolicySet.run {} [.add b, .addTemplate t, .link "t" "l" { principal := some ⟨"User", "u"⟩ }]
+    let other := ApiPolicySet.run {} [.add { b with effect := .forbid }, .addTemplate t, .link "t" "l2" { principal := some ⟨"User", "v"⟩ }]
+    (ps.merge other true).rename = [("a", "policy0")] ∧
+    (ps.merge other true).ps.policies.keys = ["a", "l", "policy0", "l2"] ∧
+    (ps.merge other true).ps.templates.keys = ["t"] ∧
+    (ps.merge other true).ps.ast.t2l.get? "t" = some ["l", "l2"] ∧
+    (ps.merge other false).err = some .alreadyDefined := by
   decide +kernel
 
 end Cedar.C08
